@@ -28,6 +28,10 @@ var charOf = func() map[rune]string {
 var Patterns = map[string]string{"p_a": "^a", "p_b": "b$", "p_ab": "^[ab]*$", "p_2": "^.{2}$",
 	"p_pct": "^[ab%]*$", "p_esc": `^\x61+$`}
 
+// FormatText holds the canonical string of each format (JV "fmt" documents).
+var FormatText = map[string]string{"date": "2006-01-02", "time": "15:04:05", "date-time": "2006-01-02T15:04:05Z",
+	"ipv4": "192.0.2.1", "ipv6": "2001:db8::1"}
+
 type M = map[string]any
 
 func str(v any) string { s, _ := v.(string); return s }
@@ -127,6 +131,12 @@ func Doc(v any) (string, error) {
 			return "", err
 		}
 		return quote(s), nil
+	case "fmt":
+		t, ok := FormatText[str(d["f"])]
+		if !ok {
+			return "", fmt.Errorf("unknown format %v", d["f"])
+		}
+		return quote(t), nil
 	case "raw": // raw JSON text, used only by hand-written cases
 		return str(d["x"]), nil
 	case "arr":
@@ -371,6 +381,11 @@ func fromVal(v any) any {
 		}
 		return odd(x)
 	case string:
+		for f, t := range FormatText {
+			if x == t {
+				return M{"t": "fmt", "f": f}
+			}
+		}
 		cs := []any{}
 		for _, r := range x {
 			id, ok := charOf[r]
